@@ -557,7 +557,8 @@ def apply_descriptor(root, d):
                 raise ParseFail("i")
             item = ch[d["i"]]
             unit = max(1, len(item.ser()))
-            lim = (1 << (8 * n.width)) - 1
+            # keep the message below ~200 kB: work must be judged in proportion to the bytes received
+            lim = min((1 << (8 * n.width)) - 1, 200000)
             cur = len(n.content())
             cnt = max(0, min(d["count"], (lim - cur) // unit))
             n.children = ch + [item] * cnt
